@@ -23,6 +23,12 @@
   Repaired in the code (fix commits 8564934, 58a79f8) and mirrored here: `load` returns an
   empty list for a file written without roots, maps constant roots to themselves, and
   builds every node with `_ite` on the mapped variable (any variable order of the target).
+  Repaired in the code (fix commits 2e7ff35, ccfe608, 55c5caa, b850f3f) and mirrored here:
+  `_load_json` releases the shelf's references when the `try:` fails; the two assertions on the
+  counts of the loaded nodes run in their own loop INSIDE the `try:`, before any release;
+  `_make_node` refuses a node line numbered as the terminal (`k <= 1`) and, with
+  `load_order=True`, a node that is not above its successors (`ValueError`, before the raw
+  `find_or_add`, which does not check it).
   Still mirrored as it is (outside the text of C12, see the check's notes):
   `load_json(load_order=True)` always leaves dynamic reordering enabled (`configure` is
   given the dict it returned), and a refused `load_json` leaves it switched off.
@@ -490,11 +496,16 @@ def nodeFromInt (cache : List (Nat × Int)) (uid : Int) : M Int := do
 def containsCheck (u : Int) : M Unit := do
   if !(← M.get).mem u then M.throw .value
 
+/-- `Function.level`: `self.manager._succ[abs(self.node)][0]` (the terminal's entry is
+`(len(vars), None, None)`) -/
+def functionLevel (u : Int) : M Nat := do
+  M.ofOption .key ((← M.get).tbl.levelOf? u)
+
 /-- `_make_node(d, bdd, context, cache)`; `cache` is the shelf (insertion order). -/
 def makeNode (loadOrder : Bool) (varAtLevel : List (Nat × String)) (ln : JLine)
     (cache : List (Nat × Int)) : M (List (Nat × Int)) := do
-  -- `if k <= 0: raise AssertionError(k)`
-  M.assert (0 < ln.id)
+  -- `if k <= 1: raise AssertionError(k)` (1 is the terminal node)
+  M.assert (1 < ln.id)
   if (cache.lookup ln.id).isSome then return cache
   let low ← nodeFromInt cache ln.lo
   withTemps [low] do
@@ -502,8 +513,13 @@ def makeNode (loadOrder : Bool) (varAtLevel : List (Nat × String)) (ln : JLine)
     withTemps [high] do
       let name ← M.ofOption .key (varAtLevel.lookup ln.lvl)
       if loadOrder then
-        -- `autoref.BDD.find_or_add(var, low, high)`
+        -- `i = bdd.level_of_var(var)`; `if i >= low.level or i >= high.level: raise ValueError`
+        -- (`find_or_add` does not check it)
         let level ← levelOfVar name
+        let lowLevel ← functionLevel low
+        let highLevel ← functionLevel high
+        if !(decide (level < lowLevel) && decide (level < highLevel)) then M.throw .value
+        -- `autoref.BDD.find_or_add(var, low, high)`
         let u ← findOrAdd level low high
         dmpWrap u
         withTemps [u] do
@@ -545,12 +561,13 @@ def dropOpt : Option Int → Mgr → Mgr
   | none, m => m
   | some u, m => (dmpDrop u m).2
 
-/-- `for uid in cache:` of `_load_json` (“rm refs to cached nodes”).  The loop variable `u`
-keeps the previous `Function` alive until it is rebound.  Returns the `Function` that is
-still bound to `u` (dies when `_load_json` returns or unwinds).  The shelf's iteration
-order is replaced by insertion order: it only decides which of two failing assertions
-is reported. -/
-def releaseLoop (loadOrder : Bool) (cache : List (Nat × Int)) :
+/-- the loop `for uid in cache:` at the end of the `try:` of `_load_json`: the assertions on the
+counts of the loaded nodes (nothing is released here).  The loop variable `u` keeps the previous
+`Function` alive until it is rebound.  Returns the `Function` that is still bound to `u` when the
+loop is left, normally or by an exception (it is rebound by the first iteration of the loop that
+releases the shelf, or dies when `_load_json` unwinds).  The shelf's iteration order is replaced
+by insertion order: it only decides which of two failing assertions is reported. -/
+def checkLoop (loadOrder : Bool) (cache : List (Nat × Int)) :
     List (Nat × Int) → Option Int → Mgr → (Except Err Unit × Option Int × Mgr)
   | [], prev, m => (.ok (), prev, m)
   | (k, _) :: rest, prev, m =>
@@ -562,10 +579,9 @@ def releaseLoop (loadOrder : Bool) (cache : List (Nat × Int)) :
         let c ← refOf u
         M.assert (2 ≤ c)
         if loadOrder then M.assert (3 ≤ c)
-        decref u
       match body m2 with
       | (.error e, m3) => (.error e, some u, m3)
-      | (.ok _, m3) => releaseLoop loadOrder cache rest (some u) m3
+      | (.ok _, m3) => checkLoop loadOrder cache rest (some u) m3
 
 def Roots.rebuild : Roots → List Int → Roots
   | .none, _ => .none
@@ -597,24 +613,30 @@ def jsonRoots (f : JsonFile) (cache : List (Nat × Int)) : M (List Int) := do
   rootsFromInts cache ks
 
 /-- the body of the `try:` of `_load_json`: the line `level_of_var`, the node lines, the
-conversion of the roots.  Returns the roots (live `Function`s) or the exception, and in both
-cases the shelf. -/
+conversion of the roots, the checks of the counts.  Returns the roots (live `Function`s) or the
+exception, and in both cases the shelf and the `Function` still bound to the loop variable `u`
+(`none` before the loop of the checks).  When the checks raise, the `Function`s of `roots` die
+with the frame (after the handler in Python, here: the counts commute). -/
 def jsonTry (f : JsonFile) (loadOrder : Bool) :
-    Mgr → (Except Err (List Int) × List (Nat × Int) × Mgr) := fun m =>
+    Mgr → (Except Err (List Int) × List (Nat × Int) × Option Int × Mgr) := fun m =>
   let varAtLevel := f.levelOfVar.foldl (fun acc (v, l) => (l, v) :: acc) []
   match jsonHeader f loadOrder m with
-  | (.error e, m1) => (.error e, [], m1)
+  | (.error e, m1) => (.error e, [], none, m1)
   | (.ok _, m1) =>
     match makeNodesE loadOrder varAtLevel f.nodes [] m1 with
-    | (.error e, cache, m2) => (.error e, cache, m2)
+    | (.error e, cache, m2) => (.error e, cache, none, m2)
     | (.ok _, cache, m2) =>
       match jsonRoots f cache m2 with
-      | (.error e, m3) => (.error e, cache, m3)
-      | (.ok us, m3) => (.ok us, cache, m3)
+      | (.error e, m3) => (.error e, cache, none, m3)
+      | (.ok us, m3) =>
+        match checkLoop loadOrder cache cache none m3 with
+        | (.error e, last, m4) => (.error e, cache, last, dropList us m4)
+        | (.ok _, last, m4) => (.ok us, cache, last, m4)
 
-/-- `except BaseException:` of `_load_json`: `for uid in cache: u = _node_from_int(…);
-bdd.decref(u, _direct=True)` — the references `_make_node` took are given back.  As in
-`releaseLoop` the loop variable keeps the previous `Function` alive until it is rebound. -/
+/-- `for uid in cache: u = _node_from_int(…); bdd.decref(u, _direct=True)` — the references
+`_make_node` took are given back.  The same loop runs in `except BaseException:` and, after a
+successful `try:`, as "rm refs to cached nodes".  The loop variable keeps the previous `Function`
+alive until it is rebound (`prev`: at first the one left by the loop of the checks). -/
 def releaseFailed (cache : List (Nat × Int)) :
     List (Nat × Int) → Option Int → Mgr → (Except Err Unit × Option Int × Mgr)
   | [], prev, m => (.ok (), prev, m)
@@ -629,22 +651,22 @@ def releaseFailed (cache : List (Nat × Int)) :
 
 /-- what `_load_json` does when the `try` block is left: by an exception — `except
 BaseException:` releases the shelf's references and re-raises (with `load_order=True`
-reordering then stays switched off: `configure` is not reached) — or normally: the release loop
-with its assertions, `assert_consistent`, `configure(reordering=old_reordering)`.
+reordering then stays switched off: `configure` is not reached) — or normally: the shelf's
+references are released, `assert_consistent`, `configure(reordering=old_reordering)`.
 (The temporaries of a failing frame die when the exception is dropped — after the handler in
 Python, before it here: the counts commute.) -/
 def jsonFinish (f : JsonFile) (loadOrder : Bool) :
-    (Except Err (List Int) × List (Nat × Int) × Mgr) → (Except Err Roots × Mgr)
-  | (.error e, cache, m1) =>
+    (Except Err (List Int) × List (Nat × Int) × Option Int × Mgr) → (Except Err Roots × Mgr)
+  | (.error e, cache, prev, m1) =>
     -- `except BaseException: … raise`
-    let (r, last, m2) := releaseFailed cache cache none m1
+    let (r, last, m2) := releaseFailed cache cache prev m1
     match r with
     | .ok _ => (.error e, dropOpt last m2)
     | .error e' => (.error e', dropOpt last m2)
-  | (.ok us, cache, m) =>
+  | (.ok us, cache, prev, m) =>
     let roots := f.roots.rebuild us
     -- on an exception below the `Function`s in `roots` die with the frame
-    let (r, last, m1) := releaseLoop loadOrder cache cache none m
+    let (r, last, m1) := releaseFailed cache cache prev m
     let fin : M Unit := do
       liftE r
       dmpAssertConsistent
